@@ -181,33 +181,59 @@ def annoBlock (p : Proto) (id : Id) (text : Bytes) : Bytes :=
 /-! ### the encoder: `Context`, `_describe_type`, `_register_type_id` -/
 
 /-- `Context.uuid_to_pos` (position = index: an id is registered with
-    `len(uuid_to_pos)`) and `Context.buffer` (joined) -/
+    `len(uuid_to_pos)`), `Context.buffer` (joined) and the entries of
+    `Context.anno_buffer` (id, type name) -/
 structure St where
   tbl : List Id := []
   buf : Bytes := []
+  ann : List (Id × Bytes) := []
 deriving Repr, DecidableEq
 
 def pos (tbl : List Id) (i : Id) : Nat := tbl.idxOf i
 
+/-- the descriptors `_add_annotation` is called for: below protocol 2.0, derived
+    scalars (`SCALAR`, not `BASE_SCALAR`) and enums -/
+def annotated (p : Proto) (k : Kind) : Bool :=
+  match p, k with
+  | .v1, .scalar => true
+  | .v1, .enum _ => true
+  | _, _ => false
+
+/-- `dn = some f`: `inline_typenames` is set and `f id` is `get_displayname` of the type -/
+def annStep (p : Proto) (dn : Option (Id → Bytes)) (h : Hdr) (ann : List (Id × Bytes)) :
+    List (Id × Bytes) :=
+  match dn with
+  | some f => if annotated p h.kind then ann ++ [(h.id, f h.id)] else ann
+  | none => ann
+
 mutual
 /-- `_describe_type(t, ctx)` / `_describe_set` / `describe_input_shape` for one node:
     describe the `pre` children, return if the id is known, describe the `post`
-    children, emit the block, register the id. -/
-def enc (p : Proto) : St → Desc → St
+    children, emit the block (and the annotation), register the id. -/
+def enc (p : Proto) (dn : Option (Id → Bytes)) : St → Desc → St
   | s, .mk h pre post =>
-    let s1 := encL p s pre
+    let s1 := encL p dn s pre
     if s1.tbl.contains h.id then s1 else
-    let s2 := encL p s1 post
+    let s2 := encL p dn s1 post
     let f : Flat := ⟨h, pre.map (fun c => pos s2.tbl c.id), post.map (fun c => pos s2.tbl c.id)⟩
     { tbl := if s2.tbl.contains h.id then s2.tbl else s2.tbl ++ [h.id],
-      buf := s2.buf ++ block p f }
-def encL (p : Proto) : St → List Desc → St
+      buf := s2.buf ++ block p f,
+      ann := annStep p dn h s2.ann }
+def encL (p : Proto) (dn : Option (Id → Bytes)) : St → List Desc → St
   | s, [] => s
-  | s, d :: ds => encL p (enc p s d) ds
+  | s, d :: ds => encL p dn (enc p dn s d) ds
 end
 
-/-- `describe(...)[0]` from a fresh `Context` -/
-def encode (p : Proto) (d : Desc) : Bytes := (enc p {} d).buf
+/-- `b''.join(ctx.anno_buffer)` -/
+def annoBytes (p : Proto) (ann : List (Id × Bytes)) : Bytes :=
+  ann.flatMap fun e => annoBlock p e.1 e.2
+
+/-- `describe(...)[0]` from a fresh `Context`: descriptors, then annotations -/
+def encodeA (p : Proto) (dn : Option (Id → Bytes)) (d : Desc) : Bytes :=
+  (enc p dn {} d).buf ++ annoBytes p (enc p dn {} d).ann
+
+/-- … without `inline_typenames` -/
+def encode (p : Proto) (d : Desc) : Bytes := (enc p none {} d).buf
 
 /-! ### readers (`binwrapper.BinWrapper`) -/
 
@@ -262,10 +288,25 @@ def rdMetaAnc (p : Proto) : Rd (Option Meta × List Nat) :=
 
 def i32ToInt (n : Nat) : Int := if n ≥ 2147483648 then (n : Int) - 4294967296 else n
 
+/-- Two decoders.  `real` = the model of `sertypes.parse` (server internal: no arm
+    for `SQL_ROW`, none for the `0xff` type-name annotation, `0x80‥0xfe` read as one
+    string).  `doc` = a client following the documented wire format: `SQL_ROW`
+    descriptors are decoded and annotation blocks (tag ≥ `0x80`: id, text) are
+    recorded. -/
+inductive Mode where
+  | real | doc
+deriving DecidableEq, Repr
+
+/-- what one block of the stream is -/
+inductive Item where
+  | desc (f : Flat) (chk : List Nat)
+  | anno (id : Id) (text : Bytes)
+  | skip
+
 /-- `_parse_descriptor` after the tag and id have been read.  The second
     component = references that the real decoder resolves but whose result is
     not part of the description (source types of an ephemeral free shape). -/
-def parseKind (p : Proto) (t : Nat) (id : Id) : Rd (Flat × List Nat) :=
+def parseKind (m : Mode) (p : Proto) (t : Nat) (id : Id) : Rd (Flat × List Nat) :=
   if t = 0 then
     bnd rdU16 fun r => ret (⟨⟨.set, id, none⟩, [r], []⟩, [])
   else if t = 2 then
@@ -330,22 +371,24 @@ def parseKind (p : Proto) (t : Nat) (id : Id) : Rd (Flat × List Nat) :=
     bnd rdU16 fun n =>
     bnd (rdMany (rdEl p false) n) fun l =>
     ret (⟨⟨.inputShape (l.map (·.1)), id, none⟩, l.map (·.2.1), []⟩, [])
+  else if t = 13 then
+    (if m = .real then fail else
+     bnd rdU16 fun n =>
+     bnd (rdMany rdNameRef n) fun l =>
+     ret (⟨⟨.sqlRow (l.map (·.1)), id, none⟩, l.map (·.2), []⟩, []))
   else fail
 
-/-- one descriptor off the stream, wire level: `none` = the real `_parse` raises,
-    `some (none, _)` = a block that is skipped without producing a descriptor.
-    The real decoder treats every tag in `0x80‥0xfe` as an annotation consisting
-    of ONE string, and has no arm for `0xff` (`ANNO_TYPENAME` is a member of
-    `DescriptorTag`, so it is dispatched and hits the `AssertionError` default)
-    nor for `SQL_ROW` (13). -/
-def parseFlat (p : Proto) : Rd (Option (Flat × List Nat)) :=
+/-- one block off the stream, wire level; `none` = the decoder raises -/
+def parseFlat (m : Mode) (p : Proto) : Rd Item :=
   bnd (match p with | .v2 => rdN 4 | .v1 => ret []) fun _ =>
   bnd rdU8 fun t =>
   if 128 ≤ t then
-    (if t = 255 then fail else bnd rdStr fun _ => ret none)
+    (match m with
+     | .real => if t = 255 then fail else bnd rdStr fun _ => ret .skip
+     | .doc => bnd (rdN 16) fun id => bnd rdStr fun tx => ret (.anno id tx))
   else
     bnd (rdN 16) fun id =>
-    bnd (parseKind p t id) fun x => ret (some x)
+    bnd (parseKind m p t id) fun x => ret (.desc x.1 x.2)
 
 /-- `ctx.codecs_list[offset]` for each reference -/
 def resolve (cl : List Desc) : List Nat → Option (List Desc)
@@ -355,30 +398,46 @@ def resolve (cl : List Desc) : List Nat → Option (List Desc)
     | some d, some ds => some (d :: ds)
     | _, _ => none
 
-/-- `_parse(desc, ctx)`: read one descriptor, append it to `codecs_list` -/
-def parseBlock (p : Proto) (cl : List Desc) : Rd (List Desc) := fun bs =>
-  match parseFlat p bs with
+/-- decoder state: `codecs_list` and (documented-format decoder) the annotations -/
+structure DSt where
+  cl : List Desc := []
+  an : List (Id × Bytes) := []
+
+/-- `_parse(desc, ctx)`: read one block, append the descriptor to `codecs_list` -/
+def parseBlock (m : Mode) (p : Proto) (st : DSt) : Rd DSt := fun bs =>
+  match parseFlat m p bs with
   | none => none
-  | some (none, r) => some (cl, r)
-  | some (some (f, chk), r) =>
-    match resolve cl f.pre, resolve cl f.post, resolve cl chk with
-    | some a, some b, some _ => some (cl ++ [.mk f.h a b], r)
+  | some (.skip, r) => some (st, r)
+  | some (.anno i t, r) => some ({ st with an := st.an ++ [(i, t)] }, r)
+  | some (.desc f chk, r) =>
+    match resolve st.cl f.pre, resolve st.cl f.post, resolve st.cl chk with
+    | some a, some b, some _ => some ({ st with cl := st.cl ++ [.mk f.h a b] }, r)
     | _, _, _ => none
 
 /-- the `while buf.tell() < len(typedesc)` loop of `parse`.  Every `_parse` reads at
     least the tag byte; the model checks that progress explicitly (it is what makes
     the loop terminate) instead of carrying a proof through the definition. -/
-def decodeAll (p : Proto) (cl : List Desc) (bs : Bytes) : Option (List Desc) :=
-  if bs.isEmpty then some cl else
-  match parseBlock p cl bs with
+def decodeAll (m : Mode) (p : Proto) (st : DSt) (bs : Bytes) : Option DSt :=
+  if bs.isEmpty then some st else
+  match parseBlock m p st bs with
   | none => none
-  | some (cl', r) => if r.length < bs.length then decodeAll p cl' r else none
+  | some (st', r) => if r.length < bs.length then decodeAll m p st' r else none
 termination_by bs.length
 
-/-- `parse(typedesc, protocol_version)`: the last descriptor of the stream -/
-def decode (p : Proto) (bs : Bytes) : Option Desc :=
-  match decodeAll p [] bs with
-  | some cl => cl.getLast?
+/-- `sertypes.parse(typedesc, protocol_version)`: the last descriptor of the stream -/
+def decodeReal (p : Proto) (bs : Bytes) : Option Desc :=
+  match decodeAll .real p {} bs with
+  | some st => st.cl.getLast?
+  | none => none
+
+/-- a client per the documented format: the last descriptor and the
+    (id, type name) annotations in stream order -/
+def decodeDoc (p : Proto) (bs : Bytes) : Option (Desc × List (Id × Bytes)) :=
+  match decodeAll .doc p {} bs with
+  | some st =>
+    match st.cl.getLast? with
+    | some d => some (d, st.an)
+    | none => none
   | none => none
 
 /-! ### a client that only uses the ≥2.0 length prefixes to walk the stream -/
@@ -469,7 +528,7 @@ def idFaithfulB (d : Desc) : Bool :=
   (subs d).all fun u => (subs d).all fun v => !(u.id == v.id) || Desc.beq u v
 
 /-- the encoder's own guards: every position fits `uint16` -/
-def fitsB (p : Proto) (d : Desc) : Bool := (enc p {} d).tbl.length ≤ 65536
+def fitsB (p : Proto) (d : Desc) : Bool := (enc p none {} d).tbl.length ≤ 65536
 
 /-- `encode` with the real packers' failure made explicit -/
 def encodeChecked (p : Proto) (d : Desc) : Option Bytes :=
@@ -511,11 +570,25 @@ def truthy {α : Type} : Option (List α) → Option (List α)
 def asciiTuple : Bytes := [116, 117, 112, 108, 101]
 def asciiSetOf : Bytes := [115, 101, 116, 45, 111, 102, 58, 58]
 
-/-- an optional list of names as one more `\x00`-separated part: present only when
-    the list is non-empty (`if element_names:`) -/
+/-- an optional list of texts as one more `\x00`-separated part, joined with `:`:
+    present only when the list is non-empty (`if cardinalities:`) -/
 def optPart (o : Option (List Bytes)) : List Bytes :=
   match truthy o with
   | some ns => [join 58 ns]
+  | none => []
+
+/-- `n.replace('\\', '\\\\').replace(':', '\\:')`: `\` (92) and `:` (58) get a `\` in front -/
+def esc : Bytes → Bytes
+  | [] => []
+  | c :: r => (if c = 92 ∨ c = 58 then [92, c] else [c]) ++ esc r
+
+/-- `_join_element_names` (fix c2beb91): escape, then join with `:` -/
+def joinNames (ns : List Bytes) : Bytes := join 58 (ns.map esc)
+
+/-- the optional element-name part (`if element_names:`) -/
+def optNames (o : Option (List Bytes)) : List Bytes :=
+  match truthy o with
+  | some ns => [joinNames ns]
   | none => []
 
 /-- `chr(c._value_) for c in cardinalities` -/
@@ -526,9 +599,19 @@ def cardChars (cards : Option (List Nat)) : Option (List Bytes) :=
 
 /-- The string handed to `uuid5(TYPE_ID_NAMESPACE, ·)`, as UTF-8 bytes; `none`
     for the empty tuple, whose id is a constant.
-    `_get_collection_type_id` builds `ct + "\0" + ":".join(ids) [+ "\0" + ":".join(names)]`,
+    `_get_collection_type_id` builds `ct + "\0" + ":".join(ids) [+ "\0" + _join_element_names(names)]`,
     `_get_object_shape_id` builds `"\0".join(parts) + repr(impl);repr(lp);repr(links)`. -/
 def idPreimage : IdKey → Option Bytes
+  | .coll ct subs names =>
+    if ct = asciiTuple ∧ subs = [] then none else
+    some (join 0 ([ct, join 58 subs] ++ optNames names))
+  | .shape base subs names cards lp links impl =>
+    some (join 0 ([base, join 58 subs] ++ optNames names ++ optPart (cardChars cards)) ++
+      reprBool impl ++ [59] ++ reprOptBools lp ++ [59] ++ reprOptBools links)
+  | .setOf sub => some (asciiSetOf ++ sub)
+
+/-- The id strings BEFORE fix c2beb91: element names joined with `:` as they are. -/
+def idPreimageBuggy : IdKey → Option Bytes
   | .coll ct subs names =>
     if ct = asciiTuple ∧ subs = [] then none else
     some (join 0 ([ct, join 58 subs] ++ optPart names))
